@@ -1,7 +1,9 @@
 """C17 — re-init and branch keep the membership rules and the link to the old group.
 (P) MlsVerif.Props.C17: membership check <-> same identities (re-init) / subset (branch), join parameter checks, freeze;
 (T) random old groups (blank interior leaves, re-keyed members) and successor member sets (equal / subset / superset / replaced):
-    creation and every old member's join on the real library vs the property; `sub` rows (identity lists) replayed on the model."""
+    creation and every old member's join on the real library vs the property; `sub` rows (identity lists), `join` rows (verdict and error
+    class of an honest joiner for successors / branches that deviate in group id, extensions, protocol version, cipher suite or epoch) and
+    `frz` rows (commit attempts on the frozen old group) replayed on the model."""
 from . import generic
 
 SOURCES = ["mls-rs/src/group/resumption.rs", "mls-rs/src/group/message_processor.rs", "mls-rs/src/group/commit.rs",
@@ -13,11 +15,16 @@ def run(ctx):
         ctx, ["MlsVerif.Props.C17"], ["c17"], "small", "c17", SOURCES,
         rule="each case: old group of 2-7 members, random removals (interior blanks), optional re-key; successor kind re-init or branch; member set "
              "equal / strict subset / superset / replaced identity; row = (kind, old identities, new identities) -> created?; the harness also "
-             "joins every invited old member, an outsider and a plain join without the resumption secret",
+             "joins every invited old member, an outsider and a plain join without the resumption secret; a dishonest creator (hooks verif_deviate, "
+             "verif_deviate_params, verif_branch_deviating) builds successors / branches for another epoch (1-3 commits before the Welcome), cipher suite (key package the "
+             "victim published for that suite), protocol version (clients declaring versions {1,2}), group id or extensions: every honest joiner must refuse with the class "
+             "the model gives; after the re-init commit every kind of commit (empty, Add, Remove, PSK, ReInit, detached) and every commit received from a member that ignores "
+             "the freeze or from an external committer is refused with the state unchanged",
         what_corr="creation of a successor/branch is allowed or refused differently from the membership model",
         what_oracle="re-init / branch outcome contradicts the property (legitimate successor refused, illegitimate created, old member cannot join, "
                     "outsider joins, old group still commits)",
-        assumptions=["re-init parameter changes (suite, version, extensions) are modelled and proved (joinChecks) but only the unchanged-parameter path is exercised on the implementation"],
+        assumptions=["a re-init to a suite with another signature scheme (new signer) and a branch deviating in its extensions are not constructed",
+                     "proposals, application traffic and GroupInfo export still work in a frozen group: the property speaks of commits only, these are recorded as coverage"],
         nontrivial=lambda r, kv: int(kv.get("cases", "0")))
 
 
